@@ -7,6 +7,10 @@ Parts
   ops      : annotations using Def/Name[/v] at depth <= 3  x  every operation sequence of length <= 4 (quick <= 3) over
              {expand, shrink, copy, validate, str} applied to ONE HedString object, compared after every step with a
              small tree model written from the property text.
+  copyops  : the same annotations; operations on the original, then HedString.copy(), then operations on EITHER object
+             (expand, shrink, validate, copying every nested group / Def tag).  After every step the object operated on has
+             the model's text, the other object is untouched (text, node objects, parent pointers, expansion flags, cached
+             expansions), the two trees share no node object, and every child's _parent is its container.
   defexpand: hand-written Def-expand groups: every sibling order of the correct content must validate, every mutated
              content must be rejected.
   column   : df_util.expand_defs / shrink_defs (column-wise variants) agree with the object-wise operations.
@@ -496,6 +500,249 @@ def run_sequence(text, family, valid, ops, failures):
     return n
 
 
+# --------------------------------------------------------------------------------------------------------------
+# part "copyops": the sequence continues on the copy AS WELL AS on the original
+# --------------------------------------------------------------------------------------------------------------
+COPY_PREFIX_OPS = ["expand", "shrink", "validate"]
+COPY_SUFFIX_OPS = ["expand", "shrink", "validate", "copyparts"]
+COPY_TARGETS = ["orig", "copy"]
+
+
+def copy_prefixes(max_prefix):
+    """operations on the original before it is copied.  max_prefix == 2: every sequence of length <= 2 over
+    {expand, shrink, validate}; max_prefix == 1 (quick tier): every sequence of length <= 2 over {expand, shrink} and the
+    four sequences that place one validate next to a state change (validate alone is pure text-wise: the ops part
+    enumerates it in all positions)."""
+    if max_prefix >= 2:
+        for p in range(max_prefix + 1):
+            yield from itertools.product(COPY_PREFIX_OPS, repeat=p)
+    else:
+        for p in range(3):
+            yield from itertools.product(["expand", "shrink"], repeat=p)
+        yield from [("validate",), ("expand", "validate"), ("validate", "expand"), ("shrink", "validate")]
+
+
+def copy_sequences(max_prefix, max_suffix):
+    """(prefix on the original) ; copy ; (suffix of (target, op) over both objects)"""
+    acts = list(itertools.product(COPY_TARGETS, COPY_SUFFIX_OPS))
+    for prefix in copy_prefixes(max_prefix):
+        for k in range(max_suffix + 1):
+            for suffix in itertools.product(acts, repeat=k):
+                yield prefix, suffix
+
+
+def _expand_label(mutated, model, origin_has_dx):
+    now_dx = has_defexpand(model)
+    if not mutated or (not now_dx and not origin_has_dx):
+        return "C09.expand.replaces_exactly_defs"
+    if now_dx:
+        return "C09.D9.expand_when_already_expanded"          # idempotence: expected no change
+    return "C09.D9.reexpand_after_shrink_of_preexpanded"
+
+
+def _shape(snap):
+    """snapshot without object identities (what a copy must have in common with its original)"""
+    out = []
+    for rec in snap:
+        if rec[0] == "G":
+            out.append(("G", rec[3]))
+        else:
+            out.append(("T", rec[3], rec[4], None if rec[5] is None else rec[5][2]))
+    return out
+
+
+def _is_def_tag(node):
+    return getattr(node, "short_base_tag", None) in ("Def", "Def-expand")
+
+
+def run_copy_sequence(text, family, valid, prefix, suffix, failures):
+    """prefix on the original, one HedString.copy(), then suffix steps on either object.  After every step:
+    the object operated on has the model's text; the other object is unchanged (text, node objects, parents, flags,
+    cached expansions); the two trees share no node object; every child's _parent is its container."""
+    from hed.models import HedString
+    from hed.models.hed_group import HedGroup
+    from rt import c09_struct as S
+    sch, dd = schema(), def_dict()
+    model0 = parse(text)
+    origin_has_dx = has_defexpand(model0)
+    reported = set()
+
+    def once(clause, step, obs, exp):
+        if clause not in reported:       # one record per clause and sequence
+            reported.add(clause)
+            failures.append((clause, step, obs, exp))
+
+    try:
+        h = HedString(text, sch, dd)
+        s0 = str(h)
+    except Exception as e:  # noqa - reported by the ops part
+        return 0
+    if norm(parse(s0)) != norm(model0):
+        return 0                         # reported by the ops part (C09.str.initial_form)
+    objs = {"orig": {"h": h, "model": model0, "mutated": False}}
+
+    def operate(st, op, step):
+        """one of expand/shrink/validate/copyparts on st; False if the sequence cannot go on"""
+        h = st["h"]
+        label = "C09.%s.pure" % op
+        try:
+            if op == "expand":
+                label = _expand_label(st["mutated"], st["model"], origin_has_dx)
+                st["model"] = model_expand(st["model"], SPEC_DEFS)
+                r = h.expand_defs()
+                st["mutated"] = True
+                if r is not h:
+                    once("C09.expand.returns_self", step, repr(r)[:80], "self")
+            elif op == "shrink":
+                label = "C09.shrink.restores_def_tags"
+                st["model"] = model_shrink(st["model"])
+                r = h.shrink_defs()
+                st["mutated"] = True
+                if r is not h:
+                    once("C09.expand.returns_self", step, repr(r)[:80], "self")
+            elif op == "validate":
+                issues = h.validate(allow_placeholders=False)
+                errs = [i for i in issues if i.get("severity", 1) == 1]
+                if valid and errs:
+                    once("C09.validate.accepts_own_expansion", step, [(i["code"], i["message"][:100]) for i in errs], [])
+                if not valid and not errs:
+                    once("C09.validate.flags_bad_use", step, [], "at least one error")
+            elif op == "copyparts":
+                label = "C09.copy.independent_of_original"
+                before = S.snapshot(h)
+                for node in S.visible(h)[1:]:
+                    if not (isinstance(node, HedGroup) or _is_def_tag(node)):
+                        continue
+                    parent = node._parent
+                    t = str(node)
+                    c = node.copy()
+                    if node._parent is not parent:
+                        once("C09.copy.original_keeps_its_parent", step,
+                             f"after {S.describe(node)}.copy(): _parent is " +
+                             ("None" if node._parent is None else S.describe(node._parent)),
+                             "the same container as before: " + S.describe(parent))
+                    if str(c) != t:
+                        once("C09.copy.equal_and_independent", step, str(c), t)
+                    sh = S.shared_nodes(h, c)
+                    if sh:
+                        once("C09.copy.trees_disjoint", step, {"copied_part": t, "shared": sh}, "no shared node object")
+                d = S.snapshot_diff(before, S.snapshot(h))
+                if d:
+                    once("C09.copy.independent_of_original", step, "copying parts changed the source: " + d, "unchanged")
+            obs = str(h)
+        except RecursionError:
+            once(label, step, "RecursionError (cyclic tree)", unparse(st["model"]))
+            return False
+        except _Timeout:
+            raise
+        except Exception as e:  # noqa
+            once(label, step, f"{type(e).__name__}: {str(e)[:120]}", unparse(st["model"]))
+            return False
+        if norm(parse(obs)) != norm(st["model"]):
+            once(label, step, obs, unparse(st["model"]))
+            return False
+        if op == "shrink" and norm(st["model"]) == norm(parse(s0)) and obs != s0:
+            once("C09.roundtrip.shrink_of_expand_is_identity", step, obs, s0)
+        return True
+
+    def structure(step, who_changed=None):
+        a, b = objs["orig"]["h"], objs["copy"]["h"]
+        try:
+            sh = S.shared_nodes(a, b)
+            if sh:
+                once("C09.copy.trees_disjoint", step, {"shared": sh}, "original and copy share no node object "
+                     "(tags, groups, cached expansions, parents)")
+            for nm, o in (("original", a), ("copy", b)):
+                pf = S.parent_faults(o)
+                if pf:
+                    once("C09.copy.parents_consistent", step, {nm: pf}, "every child's _parent is its container")
+        except RecursionError:
+            once("C09.copy.parents_consistent", step, "RecursionError (cyclic tree)", "a tree")
+
+    n = 0
+    for step, op in enumerate(prefix):
+        n += 1
+        if not operate(objs["orig"], op, step):
+            return n
+    # ---- the copy
+    step = len(prefix)
+    n += 1
+    a = objs["orig"]
+    try:
+        before = S.snapshot(a["h"])
+        text_before = str(a["h"])
+        c = a["h"].copy()
+        after = S.snapshot(a["h"])
+        text_c = str(c)
+        shape_c = _shape(S.snapshot(c))
+    except _Timeout:
+        raise
+    except (Exception, RecursionError) as e:  # noqa
+        once("C09.copy.equal_and_independent", step, f"{type(e).__name__}: {str(e)[:120]}", "a copy")
+        return n
+    d = S.snapshot_diff(before, after)
+    if d or str(a["h"]) != text_before:
+        once("C09.copy.independent_of_original", step, "copy() changed the original: " + str(d), "unchanged")
+    if text_c != text_before or type(c) is not type(a["h"]):
+        once("C09.copy.equal_and_independent", step, text_c, text_before)
+    elif shape_c != _shape(before):
+        once("C09.copy.equal_and_independent", step, shape_c, _shape(before))
+    objs["copy"] = {"h": c, "model": a["model"], "mutated": a["mutated"]}
+    structure(step)
+    # ---- both objects live on
+    for k, (who, op) in enumerate(suffix):
+        step = len(prefix) + 1 + k
+        n += 1
+        x = objs[who]
+        other = "copy" if who == "orig" else "orig"
+        y = objs[other]
+        try:
+            snap_y = S.snapshot(y["h"])
+            text_y = str(y["h"])
+        except RecursionError:
+            once("C09.copy.independent_of_original", step, "RecursionError (cyclic tree)", "a tree")
+            return n
+        ok = operate(x, op, step)
+        try:
+            d = S.snapshot_diff(snap_y, S.snapshot(y["h"]))
+            t2 = str(y["h"])
+        except RecursionError:
+            d, t2 = "RecursionError (cyclic tree)", None
+        if d or t2 != text_y:
+            name = {"orig": "the original", "copy": "the copy"}
+            once("C09.copy.independent_of_original", step,
+                 f"{op} on {name[who]} changed {name[other]}: " + (d or f"text {text_y!r} -> {t2!r}"),
+                 f"{name[other]} unchanged: {text_y}")
+        structure(step)
+        if not ok:
+            return n
+    return n
+
+
+def _copyops_worker(args):
+    text, family, valid, max_prefix, max_suffix, timeout = args
+    schema()
+    out = []
+    nseq = 0
+    signal.signal(signal.SIGALRM, _alarm)
+    for prefix, suffix in copy_sequences(max_prefix, max_suffix):
+        nseq += 1
+        fl = []
+        signal.alarm(timeout)
+        try:
+            run_copy_sequence(text, family, valid, prefix, suffix, fl)
+        except _Timeout:
+            fl.append(("C09.ops.terminates", len(prefix) + 1 + len(suffix), f"no result after {timeout}s", "termination"))
+        finally:
+            signal.alarm(0)
+        for clause, step, obs, exp in fl:
+            out.append((clause, {"part": "copyops", "annotation": text, "family": family, "valid": valid,
+                                 "prefix": list(prefix), "suffix": [list(s) for s in suffix],
+                                 "ops": list(prefix) + ["copy"] + [f"{o}@{t}" for t, o in suffix],
+                                 "failed_at_step": step}, obs, exp))
+    return text, nseq, out
+
+
 def _ops_worker(args):
     text, family, valid, maxlen, timeout = args
     schema()
@@ -516,6 +763,23 @@ def _ops_worker(args):
             out.append((clause, {"part": "ops", "annotation": text, "family": family, "valid": valid, "ops": list(ops),
                                  "failed_at_step": step}, obs, exp))
     return text, nseq, out
+
+
+def _single_use(text, fam):
+    return fam == "def" and len(re.findall(r"(?i)\bdef/", text)) == 1
+
+
+def select_copy_annotations(jobs, quick):
+    """annotations of the copyops part: every single-use annotation, and every sixth of the others"""
+    out = []
+    k = 0
+    for text, fam, ok, _, _ in jobs:
+        if not _single_use(text, fam):
+            k += 1
+            if quick and k % 6:
+                continue
+        out.append((text, fam, ok))
+    return out
 
 
 def _minimal_first(records):
@@ -658,7 +922,10 @@ def run(w: Workload):
               "templates (depth<=3) x 11 Def uses (6 definitions: plain, '/#', nested, unit-carrying, contentless; "
               "case variants; 3 ill-formed uses), their expanded and mixed forms, x EVERY operation sequence of length "
               "<=4 (quick <=3) over {expand,shrink,copy,validate,str} on one object, checked against a tree model after "
-              "each step; defexpand: every sibling order of every correct Def-expand group and 6-8 mutations each; "
+              "each step; copyops: the same annotations (quick: all single-use ones and a sixth of the others) x <=2 operations "
+              "on the original, copy(), <=2 operations (thorough: all single-use annotations, half of them with <=3, and half of the others) addressed to the original or "
+              "the copy, "
+              "with text, identity-snapshot, disjointness and parent-pointer checks after each step; defexpand: every sibling order of every correct Def-expand group and 6-8 mutations each; "
               "a case is distinct by its text (+ op sequence)")
     schema()
     def_dict()
@@ -704,6 +971,45 @@ def run(w: Workload):
     w.part("ops", cases=nseq, bound=f"{len(jobs)} annotations {fams} (depth<=3, <=2 Def uses) x all "
            f"{sum(5 ** i for i in range(maxlen + 1))} operation sequences of length<={maxlen}", exhaustive=True)
 
+    # ---- copyops
+    # quick: the selected annotations with suffix <= 2; thorough: every single-use annotation (every second one with
+    # suffix <= 3) and every second of the others (budget: the thorough tier must fit 15 min on a loaded machine)
+    max_prefix = 1 if w.quick else 2
+    if w.quick:
+        cjobs = [(text, fam, ok, max_prefix, 2, 20) for text, fam, ok in select_copy_annotations(jobs, True)]
+    else:
+        cjobs = []
+        k1 = k2 = 0
+        for text, fam, ok, _, _ in jobs:
+            if _single_use(text, fam):
+                k1 += 1
+                cjobs.append((text, fam, ok, max_prefix, 3 if k1 % 2 else 2, 20))
+            else:
+                k2 += 1
+                if k2 % 2:
+                    cjobs.append((text, fam, ok, max_prefix, 2, 20))
+    seqs_by_len = {k: list(copy_sequences(max_prefix, k)) for k in (2, 3)}
+    records = []
+    nseq = 0
+    with multiprocessing.Pool(min(14, max(1, multiprocessing.cpu_count() - 2))) as pool:
+        for text, k, out in pool.imap(_copyops_worker, cjobs, chunksize=1):
+            nseq += k
+            records.extend(out)
+    cf = {}
+    for text, fam, ok, _, ms, _ in cjobs:
+        cf[fam] = cf.get(fam, 0) + 1
+        for prefix, suffix in seqs_by_len[ms]:
+            w.case(("copyops", text, prefix, suffix), nontrivial=True,
+                   sample={"annotation": text, "family": fam, "prefix": list(prefix), "suffix": [list(x) for x in suffix]})
+    for clause, inp, obs, exp in _minimal_first(records):
+        w.fail(clause, inp, observed=obs, expected=exp)
+    n3 = sum(1 for j in cjobs if j[4] == 3)
+    w.part("copyops", cases=nseq, bound=f"{len(cjobs)} annotations {cf} x all sequences: {len(list(copy_prefixes(max_prefix)))} "
+           f"prefixes of <= 2 operations of {{expand,shrink,validate}} on the original (quick: at most one validate, next to an "
+           f"expand/shrink), copy(), <= 2 ({len(seqs_by_len[2])} sequences; for {n3} of the "
+           f"annotations <= 3, {len(seqs_by_len[3])} sequences) operations of {{expand,shrink,validate,"
+           f"copy every nested group and Def tag}} each addressed to the original or to the copy", exhaustive=True)
+
     # ---- defexpand
     own = own_expansion_texts()
     n = 0
@@ -731,7 +1037,8 @@ def run(w: Workload):
         "annotations with more than two Def uses or depth > 3; operation sequences longer than 4",
         "def_expand_gather / process_def_expands (reconstruction of definitions from Def-expand groups)",
         "value/unit validity of the plugged value (C11)",
-        "parent pointers / _original_children bookkeeping other than through str(), copy() and later operations",
+        "parent pointers are checked on the original and on one HedString.copy() of it (copyops part); copies of copies, "
+        "_original_children contents and get_as_original() are only observed through str() and later operations",
     ]
     w.assumptions += [
         "sibling order inside an expanded content group is not significant (the property compares 'up to sibling order'); "
@@ -756,6 +1063,21 @@ def replay(w: Workload, case: dict):
         signal.alarm(30)
         try:
             run_sequence(inp["annotation"], inp["family"], inp["valid"], tuple(inp["ops"]), fl)
+        except _Timeout:
+            fl.append(("C09.ops.terminates", len(inp["ops"]), "timeout", "termination"))
+        finally:
+            signal.alarm(0)
+        for clause, step, obs, exp in fl:
+            d = dict(inp)
+            d["failed_at_step"] = step
+            w.fail(clause, d, observed=obs, expected=exp)
+    elif part == "copyops":
+        fl = []
+        signal.signal(signal.SIGALRM, _alarm)
+        signal.alarm(30)
+        try:
+            run_copy_sequence(inp["annotation"], inp["family"], inp["valid"], tuple(inp["prefix"]),
+                              tuple(tuple(x) for x in inp["suffix"]), fl)
         except _Timeout:
             fl.append(("C09.ops.terminates", len(inp["ops"]), "timeout", "termination"))
         finally:
